@@ -35,8 +35,7 @@ ASSUMPTIONS = ['model of the parser stack (frozen, validated separately) and of 
                'stop_upon_closing_brace restricted to the documented closing braces } ] ) > or an explicit pair of single characters',
                'custom parsing_state arguments restricted to the walker default state and its in_math_mode=True sub-context',
                'argument kinds outside the parser model (e{..}, AnyDelimited*) do not occur in the contexts used']
-PARTIAL = ['C16_legacy_args_equiv_partial', 'C16_legacy_args_equiv_run_partial',
-           'C16_legacy_args_equiv_parse_fuel_partial']
+PARTIAL = []
 REFUTED = []
 CASE_TIMEOUT = 20.0
 ALWAYS_SEARCH = False
